@@ -10,6 +10,7 @@ from __future__ import annotations
 from fractions import Fraction
 
 from vlib import core
+from vlib import crshist
 from vlib import exactf
 from vlib.core import cbool, clist, cq, ctuple, cz
 from props.c20 import EPS, caff, cres, dec, enc, near_int, rand_res
@@ -189,10 +190,10 @@ DENSE_N = 256          # reference: points per polygon edge, vertices included
 EPS_PX = 1e-6          # allowance (pixels) for float rounding / transformer differences; measured: 0
 
 
-def crs_polygon(rng):
+def crs_polygon(rng, pairs=None):
     """a non-rectangular polygon (open ring) in the source CRS of a rotated / non-separable CRS pair"""
     import math
-    src, dst, (cx, cy) = rng.choice(CRS_PAIRS)
+    src, dst, (cx, cy) = rng.choice(pairs or CRS_PAIRS)
     r = rng.choice([2e3, 7e3, 2e4, 6e4]) * rng.uniform(0.7, 1.3)
     if src == "epsg:4326":
         r = r / 1.1e5
@@ -647,6 +648,14 @@ def p_polygon_crs(pts, src, dst, pkw):
     if rx == 0 or ry == 0 or tol < 0 or (off is not None and not all(0 <= v < 1 for v in off)):
         return True, "outside the property's domain"
     g = GeoBox.from_geopolygon(polygon(pts + [pts[0]], src), crs=dst, **pkw)
+    return judge_projected(g, pts, src, dst, pkw)
+
+
+def judge_projected(g, pts, src, dst, pkw):
+    """g: GeoBox built from the polygon pts (in src) reprojected to dst; reference: pyproj called directly"""
+    rx, ry = res_xy(pkw["resolution"])
+    tol = pkw.get("tol", 0.01)
+    off = anchor_offsets(pkw["tight"], pkw["anchor"])
     (dx0, dy0, dx1, dy1), (vx0, vy0, vx1, vy1) = reference_bbox(pts, src, dst)
     A = g.affine
     ok = (A.a, A.b, A.d, A.e) == (rx, 0, 0, ry) and str(g.crs).lower() == dst and g.shape.x >= 1 and g.shape.y >= 1
@@ -666,7 +675,36 @@ def p_polygon_crs(pts, src, dst, pkw):
     return ok, f"shape={tuple(g.shape)} affine={tuple(A)[:6]} reference bbox={dx0, dy0, dx1, dy1}; " + "; ".join(txt)
 
 
-PREDICATES = {"resolution": p_resolution, "shape": p_shape, "int_shape": p_int_shape, "polygon": p_polygon, "polygon_crs": p_polygon_crs, "zoom": p_zoom}
+# CRS pairs reserved for the runs after a process history (tools/vlib/crshist.py): they are used nowhere else in this
+# check, so the perturbation really is the first thing the process does with them.  (specs, polygon pairs, lon/lat boxes
+# whose UTM zone is not used elsewhere)
+HIST = {
+    ("authority-order-first",): (
+        ("epsg:4326", "epsg:3857", "epsg:6933", "epsg:32632", "epsg:32719"),
+        [("epsg:4326", "epsg:3857", (15.0, 48.0)), ("epsg:4326", "epsg:6933", (20.0, 40.0)),
+         ("epsg:3857", "epsg:4326", (1.67e6, 6.1e6)), ("epsg:6933", "epsg:4326", (1.9e6, 4.9e6))],
+        [(10.2, 47.1, 10.9, 47.6), (-70.4, -30.6, -69.8, -30.1)]),
+    ("queries-first", "churn"): (
+        ("epsg:4326", "epsg:3031", "epsg:32755", "epsg:32610", "epsg:32736"),
+        [("epsg:32755", "epsg:4326", (5e5, 6.1e6)), ("epsg:3031", "epsg:4326", (1e6, 1e6)), ("epsg:4326", "epsg:3031", (45.0, -75.0))],
+        [(-122.9, 37.2, -122.1, 37.9), (32.3, -2.6, 32.9, -2.1)]),
+}
+
+
+def p_bbox_utm(bbox, resolution, anchor):
+    """GeoBox.from_bbox(lon/lat box, "utm", resolution=..): the box is reprojected to its UTM zone; judged against the
+    zone computed from the centre longitude and the four corners projected with pyproj directly (always_xy=True)"""
+    from odc.geo.geobox import GeoBox
+    l, b, r, t = bbox
+    zone = int(((l + r) / 2 + 180) // 6) + 1
+    dst = f"epsg:{(32600 if (b + t) / 2 >= 0 else 32700) + zone}"
+    g = GeoBox.from_bbox(tuple(bbox), "utm", resolution=resolution, anchor=anchor)
+    pkw = dict(resolution=resolution, anchor=anchor, tight=False)
+    return judge_projected(g, [(l, b), (l, t), (r, t), (r, b)], "epsg:4326", dst, pkw)
+
+
+PREDICATES = {"resolution": p_resolution, "shape": p_shape, "int_shape": p_int_shape, "polygon": p_polygon, "polygon_crs": p_polygon_crs, "bbox_utm": p_bbox_utm, "zoom": p_zoom}
+PREDICATES["after_history"] = crshist.after_history(PREDICATES)
 
 
 def enc_kw(v):
@@ -731,6 +769,35 @@ def search(out, tier, kept):
         run("zoom", shape, A6, res)
     for pts, src, dst, pkw in kept["polycrs"]:
         run("polygon_crs", pts, src, dst, pkw)
+    rng = core.rng("c08-history")
+    for bbox in [(148.1, -35.9, 148.8, -35.2), (15.2, 59.1, 15.9, 59.6)]:      # 'utm' path of from_bbox, pristine process state
+        run("bbox_utm", bbox, rng.choice([30.0, 100.0, 250.0]), rng.choice(["default", "center"]))
+
+    # the reprojecting variants again AFTER process histories of the CRS layer (cache of CRS objects / transformers);
+    # recorded through "after_history" so that a hit replays in a fresh process.  Runs last: a history is permanent.
+    def run_after(hist, specs, name, *args):
+        try:
+            ok, detail = PREDICATES[name](*args)
+        except Exception as e:  # noqa: BLE001
+            ok, detail = False, f"raised {type(e).__name__}: {e}"
+        out.count("predicate:after_history:" + "+".join(hist) + ":" + name)
+        out.case(("after", hist, name, repr(args)), True)
+        key = "after_history:" + "+".join(hist)
+        if not ok and key not in found:
+            found[key] = True
+            out.violation(f"c08:{key}", f"after {hist}: {name}{args!r}: {detail}",
+                          {"predicate": "after_history", "args": enc_kw([list(hist), list(specs), name, list(args)]), "observed": detail})
+
+    for hist, (specs, pairs, boxes) in HIST.items():
+        crshist.perturb(hist, specs)
+        for _ in range(10 if tier == "quick" else 60):
+            kind, src, dst, pts = crs_polygon(rng, pairs)
+            (dx0, dy0, dx1, dy1), _v = reference_bbox(pts, src, dst, 8)
+            res = nice_resolution(rng, max(dx1 - dx0, dy1 - dy0))
+            pkw = dict(resolution=res, anchor=rng.choice(["default", "center", 0.25]), tight=rng.random() < 0.25)
+            run_after(hist, specs, "polygon_crs", pts, src, dst, pkw)
+        for bbox in boxes:
+            run_after(hist, specs, "bbox_utm", bbox, rng.choice([30.0, 100.0, 250.0]), rng.choice(["default", "center"]))
 
 
 # ---------------------------------------------------------------- entry points
